@@ -49,6 +49,14 @@ DEFAULTS = {
     # tucan/graph_utils.py
     "invariant_code_plain": True,            # InvariantCodeDefinition(KEY[, default]) only; value = attrs.get(key, default) / attrs[key]
     "attribute_sequence_own_first": True,    # return tuple([attr_atom] + attr_neighbors)
+    # tucan/io/molfile_v3000_reader.py (_parse_atom_attributes: loop over CHG / MASS / RAD)
+    "v3000_negative_test": ["Lt", 0],        # if key != CHG and val and val[-1] < 0: raise
+    "v3000_negative_exempt": "CHG",
+    "v3000_store_test": ["NotEq", 0],        # if val and val[-1] != 0: atom_attrs[key] = val[-1]
+    "v3000_last_wins": True,                 # every use of val is val[-1] (or its truth value)
+    "v3000_attr_loop_plain": True,           # no break / continue / return inside the loop
+    # tucan/io/molfile_v2000_reader.py (_parse_attribute_block)
+    "v2000_reset_both": True,                # any M  CHG or M  RAD line clears BOTH the charges and the radicals of the atom block
 }
 
 
@@ -413,6 +421,72 @@ def extract():
         assert isinstance(l, (ast.List, ast.Name)) and isinstance(rr, (ast.List, ast.Name))
         return isinstance(l, ast.List) and len(l.elts) == 1 and getattr(l.elts[0], "id", "") == "attr_atom" and getattr(rr, "id", "") == "attr_neighbors"
     _item(p, "attribute_sequence_own_first", own_first)
+    # ------------------------------------------------------------------ molfile_v3000_reader.py
+    try:
+        rtree = ast.parse(_src("tucan/io/molfile_v3000_reader.py"))
+    except Exception as e:
+        rtree = ast.parse("")
+        fallbacks.append("molfile_v3000_reader.py: %r" % (e,))
+
+    def attr_loop3():
+        fn = _func(rtree, "_parse_atom_attributes")
+        loops = [n for n in ast.walk(fn) if isinstance(n, ast.For) and "optional_attrs" in ast.unparse(n.iter)]
+        assert len(loops) == 1
+        return loops[0]
+
+    def last_elem_cmp(test, var):
+        """BoolOp(And, [..., var, Compare(var[-1] op const)]) -> [op, const]"""
+        assert isinstance(test, ast.BoolOp) and isinstance(test.op, ast.And)
+        assert any(isinstance(v, ast.Name) and v.id == var for v in test.values)
+        cmps = [v for v in test.values if isinstance(v, ast.Compare) and isinstance(v.left, ast.Subscript)]
+        assert len(cmps) == 1 and ast.unparse(cmps[0].left) == var + "[-1]"
+        return [_op(cmps[0]), cmps[0].comparators[0].value], test
+
+    def neg_test():
+        loop = attr_loop3()
+        ifs = _raising_ifs(loop)
+        assert len(ifs) == 1
+        return last_elem_cmp(ifs[0].test, loop.target.elts[1].id)
+    _item(p, "v3000_negative_test", lambda: neg_test()[0])
+    def neg_exempt():
+        loop = attr_loop3()
+        _, test = neg_test()
+        ex = [v for v in test.values if isinstance(v, ast.Compare) and isinstance(v.left, ast.Name) and v.left.id == loop.target.elts[0].id]
+        assert len(ex) == 1 and _op(ex[0]) == "NotEq"
+        return ex[0].comparators[0].id
+    _item(p, "v3000_negative_exempt", neg_exempt)
+    def store_test():
+        loop = attr_loop3()
+        ifs = [n for n in loop.body if isinstance(n, ast.If) and not any(isinstance(x, ast.Raise) for x in n.body)]
+        assert len(ifs) == 1 and len(ifs[0].body) == 1 and isinstance(ifs[0].body[0], ast.Assign) and not ifs[0].orelse
+        assert ast.unparse(ifs[0].body[0].value) == loop.target.elts[1].id + "[-1]"
+        return last_elem_cmp(ifs[0].test, loop.target.elts[1].id)[0]
+    _item(p, "v3000_store_test", store_test)
+    def last_wins():
+        loop = attr_loop3()
+        var = loop.target.elts[1].id
+        subs = [ast.unparse(n) for n in ast.walk(loop) if isinstance(n, ast.Subscript) and getattr(n.value, "id", "") == var]
+        calls = [n for n in ast.walk(loop) if isinstance(n, ast.Call) and any(getattr(a, "id", "") == var for a in n.args)]
+        assert subs
+        return all(x == var + "[-1]" for x in subs) and not calls
+    _item(p, "v3000_last_wins", last_wins)
+    _item(p, "v3000_attr_loop_plain", lambda: not any(isinstance(n, (ast.Break, ast.Continue, ast.Return)) for n in ast.walk(attr_loop3())))
+
+    # ------------------------------------------------------------------ molfile_v2000_reader.py
+    def reset_both():
+        tree = ast.parse(_src("tucan/io/molfile_v2000_reader.py"))
+        fn = _func(tree, "_parse_attribute_block")
+        flag = "reset_chg_and_rad"
+        sets = [n for n in ast.walk(fn) if isinstance(n, ast.Assign) and getattr(n.targets[0], "id", "") == flag and getattr(n.value, "value", None) is True]
+        guarded = [n for n in ast.walk(fn) if isinstance(n, ast.If) and getattr(n.test, "id", "") == flag]
+        assert len(guarded) == 1
+        cleared = sorted(c.args[0].id for c in ast.walk(guarded[0]) if _is_call(c, "_clear_atom_attribute"))
+        # the flag is set in the branch of the CHG lines and in the branch of the RAD lines
+        branches = [n for n in ast.walk(fn) if isinstance(n, ast.If) and _is_call(n.test, "startswith")]
+        setters = sorted(ast.literal_eval(b.test.args[0]) for b in branches if any(x in sets for x in ast.walk(ast.Module(body=b.body, type_ignores=[]))))
+        elsewhere = [c for c in ast.walk(fn) if _is_call(c, "_clear_atom_attribute") and c not in list(ast.walk(guarded[0]))]
+        return cleared == ["CHG", "RAD"] and setters == ["M  CHG", "M  RAD"] and not elsewhere
+    _item(p, "v2000_reset_both", reset_both)
     return p
 
 
